@@ -60,6 +60,9 @@ def gmat(rng, quick):
     # 1x1 blocks with an eigenvalue strictly between 0 and 1
     yield "onebyone[0.5]", np.array([[0.5]])
     yield "onebyone-mixed", block_diag_matrix(rng, [np.array([[0.5]]), np.array([[1.0]]), projector(rng, 3, 1), np.array([[0.25]])], zero_rows=1)
+    for v in (0.51, 0.75, 0.9, 0.998):
+        yield f"onebyone[{v}]", np.array([[v]])
+    yield "onebyone-mixed-high", block_diag_matrix(rng, [np.array([[0.7]]), np.array([[1.0]]), projector(rng, 4, 2), np.array([[0.95]]), np.array([[0.6]])], zero_rows=1)
     # rank-one projectors spread over several sub-blocks of the block-divided solver
     for n in (2, 6, 12) if quick else (2, 6, 12, 40, 90):
         v = rng.normal(size=n)
